@@ -3,6 +3,16 @@ use crate::{
     object::{Error, FromString, Object, Type},
 };
 
+// With the feature `verif` the output of print() can be captured per thread by the verification harness.
+#[cfg(feature = "verif")]
+macro_rules! print {
+    ($($arg:tt)*) => { crate::verif::emit(format_args!($($arg)*)) };
+}
+#[cfg(feature = "verif")]
+macro_rules! println {
+    () => { crate::verif::emit(format_args!("\n")) };
+}
+
 #[repr(u8)]
 pub(crate) enum Builtin {
     Print,
